@@ -1,0 +1,84 @@
+//go:build verif
+
+package tree
+
+// Contracts for the deductive verifier in /verif (properties C01, C02, C03). Only part of the
+// build under the tag `verif`.
+//
+// Ghost state per node: owner (the tree the node is linked into; nil once unlinked), height
+// (leaves 0), pidx (index in the parent's children).
+
+//@ ghost btree.nodes set[*node[K, V]]
+//@ ghost node.owner *btree[K, V]
+//@ ghost node.height int
+//@ ghost node.pidx int
+
+// ---- structural invariant (C03), with one node `exc` allowed to be one key short ----
+// t.nodes is the set of nodes linked into t; x.owner names the tree for functions that only get a node.
+
+//@ pred nodeOK(t, x, exc) = x != nil && alloc(x) && x.owner == t && 0 <= x.n && x.n <= 15
+//@   && (x != t.root && x != exc ==> x.n >= 7) && (x != t.root && x == exc ==> x.n >= 6)
+//@   && x.height >= 0 && ((x.children[0] == nil) <==> x.height == 0)
+//@   && (x != t.root ==> x.parent != nil && t.nodes[x.parent] && 0 <= x.pidx && x.pidx <= x.parent.n && x.parent.children[x.pidx] == x && x.parent.height == x.height + 1)
+//@   && (x == t.root ==> x.parent == nil)
+//@ pred structOK(t, exc) = t != nil && t.root != nil && t.nodes[t.root] && t.compare != nil && !t.nodes[nil]
+//@   && (forall x *node[K, V] {t.nodes[x]} :: t.nodes[x] ==> nodeOK(t, x, exc))
+//@   && (forall x *node[K, V], j int {x.children[j]} :: t.nodes[x] && 0 <= j && j <= 15 ==>
+//@        (x.height == 0 ==> x.children[j] == nil)
+//@        && (x.height > 0 && j <= x.n ==> x.children[j] != nil && t.nodes[x.children[j]] && x.children[j].parent == x && x.children[j].pidx == j)
+//@        && (j > x.n ==> x.children[j] == nil))
+//@   && (forall x *node[K, V], i int {x.keys[i]} :: t.nodes[x] && x.n <= i && i < 15 ==> x.keys[i] == zero(K))
+//@   && (forall x *node[K, V], i int {x.values[i]} :: t.nodes[x] && x.n <= i && i < 15 ==> x.values[i] == zero(V))
+
+// ---- array primitives ----
+
+//@ func removeOne
+//@   props C03
+//@   requires 0 <= idx && idx < len(a)
+//@   modifies elems(a)
+//@   ensures forall t int {a[t]} :: 0 <= t && t < idx ==> a[t] == old(a[t])
+//@   ensures forall t int {a[t]} :: idx <= t && t < len(a) - 1 ==> a[t] == old(a[t+1])
+//@   ensures a[len(a)-1] == zero(T)
+//@   ensures forall k int {row(a)[k]} :: k < off(a) || k >= off(a) + len(a) ==> row(a)[k] == old(row(a)[k])
+
+//@ func insertOne
+//@   props C03
+//@   requires 0 <= idx && idx < len(a)
+//@   modifies elems(a)
+//@   ensures forall t int {a[t]} :: 0 <= t && t < idx ==> a[t] == old(a[t])
+//@   ensures a[idx] == x
+//@   ensures forall t int {a[t]} :: idx < t && t < len(a) ==> a[t] == old(a[t-1])
+//@   ensures forall k int {row(a)[k]} :: k < off(a) || k >= off(a) + len(a) ==> row(a)[k] == old(row(a)[k])
+
+// ---- searchNode: position of k among the keys of one node, at most n (<= 15) comparisons ----
+
+//@ func btree.searchNode
+//@   props C01 C03
+//@   requires x != nil && 0 <= x.n && x.n <= 15 && t.compare != nil
+//@   ghostinit cc := 0
+//@   after call compare[0]: ghost cc := cc + 1
+//@   loop 0: invariant 0 <= i && i <= x.n && cc == i && (forall j int {x.keys[j]} :: 0 <= j && j < i ==> t.compare(k, x.keys[j]) > 0)
+//@   ensures C03: cc <= x.n && cc <= 15
+//@   ensures inNode ==> 0 <= idx && idx < x.n && t.compare(k, x.keys[idx]) == 0
+//@   ensures !inNode ==> 0 <= idx && idx <= x.n && (idx < x.n ==> t.compare(k, x.keys[idx]) < 0)
+//@   ensures forall j int {x.keys[j]} :: 0 <= j && j < idx ==> t.compare(k, x.keys[j]) > 0
+
+//@ func leftmostLeaf
+//@   props C01 C03
+//@   requires x != nil && x.owner != nil && x.owner.nodes[x] && structOK(x.owner, nil)
+//@   loop 0: invariant curr != nil && x.owner.nodes[curr] && curr.height <= x.height
+//@   ensures result != nil && x.owner.nodes[result] && result.height == 0
+
+//@ func rightmostLeaf
+//@   props C01 C03
+//@   requires x != nil && x.owner != nil && x.owner.nodes[x] && structOK(x.owner, nil)
+//@   loop 0: invariant curr != nil && x.owner.nodes[curr] && curr.height <= x.height
+//@   ensures result != nil && x.owner.nodes[result] && result.height == 0
+
+//@ func newBtree
+//@   props C03
+//@   requires compare != nil
+//@   ghost result.root.owner := result
+//@   ghost result.nodes := single(result.root)
+//@   ghost result.root.height := 0
+//@   ensures fresh(result) && result.size == 0 && result.gen == 0 && result.compare == compare && structOK(result, nil) && result.root.n == 0
